@@ -437,7 +437,7 @@ pub fn run(rc: &RunCtx) -> Outcome {
         "programs": decls.len(),
         "evaluations": evaluations,
         "distinct_nontrivial": boundary,
-        "rule": "cases = declarations (rule-valid ones from the generator and single-step perturbations of one field: reversed range, type/range one bit off, bool over two bits, K -> 1/0, stride below width, stride removed from a list array, field moved so that its top bit is base width / storage headroom / storage width / beyond, one array element too many, and the same on a base one bit wider), each checked with the macro built in the dev and in the release profile. Expected verdict recomputed from the final declaration by the rule transcription (R1-R4); unspecified declarations dropped. Non-trivial: at distance <= 1 from the validity boundary (a perturbed declaration, or a valid one touching a limit: top bit, stride = width, K = 2); distinct by declaration text",
+        "rule": "cases = declarations (rule-valid ones from the generator and single-step perturbations of one field: reversed range, type/range one bit off, bool over two bits, K -> 1/0, stride below width, stride 0, stride removed from a list array, reversed ranges hidden in a list (empty, or compensated by a wider range), literals near u64::MAX that make the macro's own arithmetic wrap, field moved so that its top bit is base width / storage headroom / storage width / beyond, one array element too many, and the same on a base one bit wider), each checked with the macro built in the dev and in the release profile. Expected verdict recomputed from the final declaration by the rule transcription (R1-R4); unspecified declarations dropped. Non-trivial: at distance <= 1 from the validity boundary (a perturbed declaration, or a valid one touching a limit: top bit, stride = width, K = 2); distinct by declaration text",
         "samples": samples,
         "exhaustive": false,
         "disagreements_checked": disagreements_checked,
@@ -453,7 +453,7 @@ pub fn run(rc: &RunCtx) -> Outcome {
         coverage,
         assumptions: vec![
             "rustc's JSON diagnostics are attributed to declarations by file; a disagreement is re-confirmed in a single-declaration crate before it is reported".into(),
-            "the rule transcription model::rules::layout_verdict is the oracle; declarations the statement leaves open (bit named twice, stride 0, Option mismatch, undocumented spellings) are never generated".into(),
+            "the rule transcription model::rules::layout_verdict is the oracle; declarations the statement leaves open (a list naming a bit twice, stride 0 on a list array, Option<> not matching the enum's exhaustiveness, undocumented spellings such as bit(a..=b)) are never generated".into(),
         ],
     }
 }
